@@ -242,6 +242,13 @@ CHECKS['C20'] = dict(
     note='Not decided: serde_json / zstd internals; zstd::decode_all output size (reported in the evidence); the SQL-dump loader executes statements (C23/C24).',
     design='§4 C20')
 
+CHECKS['C24'] = dict(
+    technique='inventory of MIR overflow / division asserts on non-usize integer operands in the arithmetic operators, aggregates, window, columnar, vectorised, SIMD and procedural modules, filtered by call-graph reachability from the statement executors, with dominance-based discharge and a reviewed table (T12/T5 restricted)',
+    text='Decides the no-silent-wrap clause: every integer + - * / % and negation on SQL values in those modules is checked or guarded; an '
+         'unchecked operation is exactly an Overflow assert in MIR, so the inventory is complete for the compiled code and holds for all values.',
+    note='Not decided: panic-freedom of the whole executor (stated in DESIGN), floating-point rounding, calendar arithmetic beyond year 5.8 million (reviewed, listed in the evidence).',
+    design='§4 C24')
+
 NOT_APPLICABLE = {
     'C01': 'Equality of result multisets with a reference engine is a value-level semantic equivalence over all queries and data; no structural necessary condition beyond those claimed under C06/C21/C24 exists and a static rule cannot stand in for an oracle.',
     'C03': 'Columnar-vs-row agreement is determined by computed values (empty input, NULL handling, sums); a rejected shape falls back safely, so no table-agreement obligation exists whose breach necessarily changes results.',
